@@ -103,8 +103,194 @@ def lexer_engine():
     return eng
 
 
+WS = (9, 10, 12, 13, 32)
+
+
+def _alpha(b):
+    return b is not None and ((65 <= b <= 90) or (97 <= b <= 122))
+
+
+def _digit(b):
+    return b is not None and 48 <= b <= 57
+
+
+def expect(b1, b2, h, c, a):
+    """IEEE 488.2 section 7 dispatch on the first byte in the state (inside the header?, header is a common command?, a
+    data element was just read?): (result, state afterwards, bytes consumed by next() itself or None)"""
+    ch = chr(b1)
+    keep = (h, c, False)
+    if ch == "*":
+        return "reader:read_mnemonic", (h, True, False), None
+    if ch == ":":
+        if b2 is not None and not _alpha(b2):
+            return "Err(InvalidSeparator)", keep, 1
+        if (not h) or c:
+            return "Err(InvalidSeparator)", keep, 1
+        return "Ok(HeaderMnemonicSeparator)", keep, 1
+    if ch == "?":
+        if b2 is not None and b2 not in WS and b2 != ord(";"):
+            return "Err(SyntaxError)", keep, 1
+        if not h:
+            return "Err(SyntaxError)", keep, 1
+        return "Ok(HeaderQuerySuffix)", (False, c, False), 1
+    if ch == ";":
+        return "Ok(ProgramMessageUnitSeparator)", (True, False, False), 2 if b2 in WS else 1
+    if ch == "\n":
+        if b2 is None:
+            return "None", keep, 1
+        return "Err(SyntaxError)", keep, 2
+    if ch == ",":
+        if h:
+            return "Err(HeaderSeparatorError)", keep, 1
+        if not a:
+            return "Err(SyntaxError)", keep, 1
+        if b2 in (ord(","), ord(";")):
+            return "Err(SyntaxError)", keep, 1
+        return "Ok(ProgramDataSeparator)", keep, 2 if b2 in WS else 1
+    if b1 in WS:
+        return "Ok(ProgramHeaderSeparator)", (False, c, False), 2 if b2 in WS else 1
+    if _alpha(b1):
+        return ("reader:read_mnemonic" if h else "reader:read_character_data"), keep, None
+    if _digit(b1) or ch in "+-.":
+        return ("Err(CommandHeaderError)" if h else "reader:read_numeric_data"), keep, 0 if h else None
+    if ch == "#":
+        if h:
+            return "Err(CommandHeaderError)", keep, 1
+        if b2 is None:
+            return "Err(BlockDataError)", keep, 1
+        return ("reader:read_arbitrary_data" if _digit(b2) else "reader:read_nondecimal_data"), keep, None
+    if ch in "\"'":
+        return ("Err(CommandHeaderError)" if h else "reader:read_string_data"), keep, 0 if h else None
+    if ch == "(":
+        return "reader:read_expression_data", keep, None
+    return ("Err(SyntaxError)" if b1 < 128 else "Err(InvalidCharacter)"), keep, 1
+
+
+# Complete elements that take the lexer through each of its readers (used to follow the bookkeeping across a reader call)
+READER_PROBES = (b"*A", b"A", b"1", b"#H1", b"#11", b'"x"', b"(1)")
+DATA_TOKENS = ("CharacterProgramData", "DecimalNumericProgramData", "DecimalNumericSuffixProgramData", "NonDecimalNumericProgramData", "StringProgramData", "ArbitraryBlockData", "ExpressionProgramData")
+
+
+def _state_of(agg, ci):
+    return {i: v for i, v in agg.fields.items() if i != ci}
+
+
+def _state_key(state):
+    return repr(fdai.snapshot(AggV("s", dict(state))))
+
+
+def mk_tokenizer(state, ci, pos=0):
+    import copy
+    vals = {i: copy.deepcopy(v) for i, v in state.items()}
+    vals[ci] = M.mk_bytes_iter(pos)
+    return AggV(TOKENIZER, vals)
+
+
+def tokenizer_states():
+    """(list of (bookkeeping state, (h, c, a)), index of the `chars` field).
+
+    The lexer's bookkeeping (is it inside the header? is the header a common command? was a data element just read?) is
+    private state whose representation is the library's business - three bools, an enum, ... The tables never name its
+    fields: they start from the states the library's own constructors produce (`Tokenizer::from_byte_iter`: start of a
+    message, `Tokenizer::new_params`: inside the parameters) and follow the lexer's own transitions, pairing every state
+    reached with the IEEE 488.2 section 7 state of the history that led to it (product exploration). A state in which
+    the lexer does not behave as section 7 says for that history is reported by the row that shows it."""
+    if "states" in _C:
+        return _C["states"]
+    P = D.prog()
+    u = P.unit("scpi")
+    fields = tokenizer_fields(u)
+    if "chars" not in fields:
+        raise facts.AnchorLost("Tokenizer::chars (the public input cursor)")
+    ci = fields.index("chars")
+    eng8 = element_engine()
+    nb = tokenizer_next_body(u)
+
+    def construct(name, arg):
+        b = u.body(TOKENIZER + "::" + name) if hasattr(u, "body") else None
+        if b is None:
+            raise facts.AnchorLost("Tokenizer::" + name)
+        st = fdai.State()
+        st.extra["bytes"] = []
+        res = eng8.run(b, [arg], st)
+        if len(res) != 1 or not isinstance(res[0].retval, AggV):
+            raise facts.AnchorLost("Tokenizer::%s does not construct one definite lexer state" % name)
+        state = _state_of(res[0].retval, ci)
+        if any(not isinstance(v, (K, EnumV)) for v in state.values()):
+            raise facts.AnchorLost("Tokenizer::%s leaves part of the lexer state undefined (%s)" % (name, state))
+        return state
+
+    start = [(construct("from_byte_iter", M.mk_bytes_iter(0)), (True, False, False)),
+             (construct("new_params", RefV(Cell(fdai.BytesV(b"", 0), "bytes"))), (False, False, False))]
+    pairs = []
+    seen = set()
+    work = list(start)
+    stub = lexer_engine()
+    while work:
+        state, label = work.pop(0)
+        key = (_state_key(state), label)
+        if key in seen:
+            continue
+        seen.add(key)
+        pairs.append((state, label))
+        if len(pairs) > 48:
+            raise facts.AnchorLost("the lexer reaches more than 48 distinct bookkeeping states")
+        h, c, a = label
+        # transitions through next() itself (structural bytes): the section 7 state afterwards is the label of the successor
+        for data in (b":A", b"?", b";", b" ", b",1", b";\n", b"? "):
+            exp_res, nxt, _ = expect(data[0], data[1] if len(data) > 1 else None, h, c, a)
+            if not exp_res.startswith("Ok("):
+                continue
+            st = fdai.State()
+            st.extra["bytes"] = list(data)
+            cell = Cell(mk_tokenizer(state, ci), "tokenizer")
+            st.extra["tk"] = cell
+            for r in stub.run(nb, [RefV(cell, (), True)], st):
+                row = Row("", data[0], "", data[1] if len(data) > 1 else None, h, c, a, r, fields, ci)
+                if row.result == exp_res and row.final_state is not None:
+                    work.append((row.final_state, nxt))
+        # transitions through the readers: a complete element, read with the reader analysed in place
+        for data in READER_PROBES:
+            st = fdai.State()
+            st.extra["bytes"] = list(data)
+            cell = Cell(mk_tokenizer(state, ci), "tokenizer")
+            st.extra["tk"] = cell
+            try:
+                res = eng8.run(nb, [RefV(cell, (), True)], st)
+            except (fdai.TooManyPaths, RecursionError):
+                continue
+            if len(res) != 1 or res[0].outcome != "return":
+                continue
+            v = res[0].retval
+            tok = None
+            if isinstance(v, EnumV) and v.name == "Some" and isinstance(v.fields.get(0), EnumV) and v.fields[0].name == "Ok" and isinstance(v.fields[0].fields.get(0), EnumV):
+                tok = v.fields[0].fields[0].name
+            tkc = res[0].extra.get("tk")
+            if tok is None or tkc is None or not isinstance(tkc.v, AggV):
+                continue
+            fin = _state_of(tkc.v, ci)
+            if any(not isinstance(x, (K, EnumV)) for x in fin.values()):
+                continue
+            if tok == "ProgramMnemonic":
+                work.append((fin, (h, c or data[:1] == b"*", False)))
+            elif tok in DATA_TOKENS:
+                work.append((fin, (h, c, True)))
+    _C["states"] = (pairs, ci)
+    return _C["states"]
+
+
+def state_for(label):
+    """the first bookkeeping state found for a section 7 state (start states first)"""
+    pairs, ci = tokenizer_states()
+    for state, lab in pairs:
+        if lab == tuple(label):
+            return state, ci
+    raise facts.AnchorLost("no lexer state reached for (header=%s, common=%s, after datum=%s)" % tuple(label))
+
+
 def next_table(flag_sets=None, quick=False):
-    """Decision table of Tokenizer::next: (first class, second class|END, in_header, in_common, after_data) -> rows"""
+    """Decision table of Tokenizer::next: (first class, second class|END, lexer state) -> rows, over every bookkeeping
+    state the lexer reaches (tokenizer_states), each labelled with its section 7 state"""
     key = ("next", quick)
     if key in _C:
         return _C[key]
@@ -112,10 +298,7 @@ def next_table(flag_sets=None, quick=False):
     u = P.unit("scpi")
     body = tokenizer_next_body(u)
     fields = tokenizer_fields(u)
-    need = {"chars", "in_header", "in_common"}
-    if not need <= set(fields):
-        raise facts.AnchorLost("Tokenizer fields %s (have %s)" % (sorted(need), fields))
-    has_after = "after_data" in fields
+    pairs, ci = tokenizer_states()
     util_bodies = [b for b in u.bodies if b.npath.startswith("scpi::parser::tokenizer::util::skip_ws")]
     # IEEE 488.2 section 7 special bytes are always classes of their own, whatever the code compares against
     consts = byte_constants(u, [body] + util_bodies) | {ord(c) for c in "*:?;\n,#\"'()+-. "}
@@ -125,30 +308,29 @@ def next_table(flag_sets=None, quick=False):
     reps = [(class_name(c), c[0], c) for c in classes]
     # second byte matters only where next() itself looks ahead; elsewhere one representative suffices
     lookahead_firsts = {ord(c) for c in ":?\n,#;"} | {9, 12, 13, 32}
-    for (n1, b1, c1) in reps:
-        seconds = reps + [("END", None, [])] if (b1 in lookahead_firsts) else [("x", ord("A"), []), ("END", None, [])]
-        for (n2, b2, c2) in seconds:
-            for in_header in (True, False):
-                for in_common in (True, False):
-                    for after_data in ((True, False) if has_after else (False,)):
-                        if quick and b1 not in lookahead_firsts and n2 == "END" and in_common:
-                            continue
-                        st = fdai.State()
-                        data = [b1] + ([b2] if b2 is not None else [])
-                        st.extra["bytes"] = data
-                        vals = {"chars": M.mk_bytes_iter(0), "in_header": K(in_header), "in_common": K(in_common), "after_data": K(after_data)}
-                        tk = AggV(TOKENIZER, {i: vals.get(nm, TOP) for i, nm in enumerate(fields)})
-                        cell = Cell(tk, "tokenizer")
-                        st.extra["tk"] = cell
-                        res = eng.run(body, [RefV(cell, (), True)], st)
-                        for r in res:
-                            rows.append(Row(n1, b1, n2, b2, in_header, in_common, after_data, r, fields))
-    _C[key] = (rows, classes, consts, has_after)
+    for sid, (state, (in_header, in_common, after_data)) in enumerate(pairs):
+        for (n1, b1, c1) in reps:
+            seconds = reps + [("END", None, [])] if (b1 in lookahead_firsts) else [("x", ord("A"), []), ("END", None, [])]
+            for (n2, b2, c2) in seconds:
+                if quick and b1 not in lookahead_firsts and n2 == "END" and in_common:
+                    continue
+                st = fdai.State()
+                data = [b1] + ([b2] if b2 is not None else [])
+                st.extra["bytes"] = data
+                cell = Cell(mk_tokenizer(state, ci), "tokenizer")
+                st.extra["tk"] = cell
+                res = eng.run(body, [RefV(cell, (), True)], st)
+                for r in res:
+                    row = Row(n1, b1, n2, b2, in_header, in_common, after_data, r, fields, ci)
+                    row.sid = sid
+                    rows.append(row)
+    _C[key] = (rows, classes, consts, pairs)
     return _C[key]
 
 
 class Row:
-    def __init__(self, n1, b1, n2, b2, in_header, in_common, after_data, r, fields):
+    def __init__(self, n1, b1, n2, b2, in_header, in_common, after_data, r, fields, ci=None):
+        self.sid = None
         self.n1, self.b1, self.n2, self.b2 = n1, b1, n2, b2
         self.in_header, self.in_common, self.after_data = in_header, in_common, after_data
         self.r = r
@@ -180,16 +362,17 @@ class Row:
                 self.result = "Some(?)"
         if self.reader:
             self.result = "reader:" + self.reader[0]
-        # final tokenizer state
+        # final tokenizer state: cursor position and bookkeeping state (opaque)
         self.final = {}
+        self.final_state = None
         tkc = r.extra.get("tk")
+        ci = fields.index("chars") if ci is None else ci
         if tkc is not None and isinstance(tkc.v, AggV):
-            for i, nm in enumerate(fields):
-                v = tkc.v.fields.get(i)
-                if nm == "chars":
-                    self.final["pos"] = v.fields[0].v if isinstance(v, AggV) and isinstance(v.fields.get(0), K) else None
-                else:
-                    self.final[nm] = v.v if isinstance(v, K) else None
+            v = tkc.v.fields.get(ci)
+            self.final["pos"] = v.fields[0].v if isinstance(v, AggV) and isinstance(v.fields.get(0), K) else None
+            fin = _state_of(tkc.v, ci)
+            if all(isinstance(x, (K, EnumV)) for x in fin.values()):
+                self.final_state = fin
         self.fields = fields
 
     def key(self):
@@ -202,10 +385,8 @@ def final_flags(row):
 
 
 def check_separator_typestate(R, rule):
-    """A data separator is accepted only when the lexer's own state says a data element precedes it."""
-    P = D.prog()
-    u = P.unit("scpi")
-    rows, classes, consts, has_after = next_table()
+    """A data separator is accepted only in a state whose history says a data element precedes it."""
+    rows, classes, consts, pairs = next_table()
     sep = [r for r in rows if r.b1 == ord(",")]
     if not sep:
         R.anchor_lost(rule, "`,` rows of the lexer dispatch table")
@@ -213,24 +394,37 @@ def check_separator_typestate(R, rule):
     R.count("lexer_separator_rows", len(sep))
     bad = [r for r in sep if r.result == "Ok(ProgramDataSeparator)" and not (r.after_data and not r.in_header)]
     good = [r for r in sep if r.result == "Ok(ProgramDataSeparator)" and r.after_data and not r.in_header]
-    R.check(has_after and not bad and good, rule, "separator-needs-datum",
-            "`,` yields a data separator only right after a data element outside the header (%d accepting rows, %d rows analysed)" % (len(good), len(sep)),
+    R.check(not bad and good, rule, "separator-needs-datum",
+            "`,` yields a data separator only right after a data element outside the header (%d accepting rows, %d rows analysed over %d lexer states)" % (len(good), len(sep), len(pairs)),
             "`,` is accepted as a data separator although no data element precedes it (%s): a misplaced `,` would be swallowed by the parameter iterator" % sorted({r.key() for r in bad})[:4])
 
 
 def check_unit_separator_typestate(R, rule):
     """A message unit separator starts a fresh header: whatever unit preceded it (common command or not, with or
-    without parameters), the lexer is back in header state with the common-command flag cleared, so that the next
-    unit may use `:`."""
-    rows, classes, consts, has_after = next_table()
+    without parameters), the lexer is back at the start of a header, so that the next unit may use `:`. The state after
+    `;` is described by what the lexer does next (the states reached through `;` are explored under the fresh-header
+    label: tokenizer_states), never by the names of its bookkeeping fields."""
+    rows, classes, consts, pairs = next_table()
     sep = [r for r in rows if r.b1 == ord(";")]
     if not sep:
         R.anchor_lost(rule, "`;` rows of the lexer dispatch table")
         return
-    bad = [r for r in sep if not (r.result == "Ok(ProgramMessageUnitSeparator)" and r.final.get("in_header") is True and r.final.get("in_common") is False)]
+    keys = {(_state_key(st_), lab): i for i, (st_, lab) in enumerate(pairs)}
+    bad = []
+    for r in sep:
+        succ = keys.get((_state_key(r.final_state), (True, False, False))) if r.final_state is not None else None
+        ok = r.result == "Ok(ProgramMessageUnitSeparator)" and succ is not None
+        if ok:
+            # in the state `;` leaves behind, `:` before a letter is a header separator and a letter starts a mnemonic
+            nxt = [x for x in rows if x.sid == succ]
+            colon = [x for x in nxt if x.b1 == ord(":") and x.b2 is not None and chr(x.b2).isalpha()]
+            letter = [x for x in nxt if _alpha(x.b1)]
+            ok = bool(colon) and all(x.result == "Ok(HeaderMnemonicSeparator)" for x in colon) and bool(letter) and all(x.result == "reader:read_mnemonic" for x in letter)
+        if not ok:
+            bad.append(r)
     R.check(not bad, rule, "unit-separator-resets-header-state",
-            "`;` yields a unit separator and leaves the lexer in header state with the common-command flag cleared, from every prior state (%d rows)" % len(sep),
-            "after `;` the lexer is not in a fresh header state (%s): the next unit's `:` or `*` would be misjudged" % sorted({"%s -> %s %s" % (r.key(), r.result, r.final) for r in bad})[:3])
+            "`;` yields a unit separator and leaves the lexer at the start of a header (`:` and mnemonics accepted again), from every prior state (%d rows)" % len(sep),
+            "after `;` the lexer is not in a fresh header state (%s): the next unit's `:` or `*` would be misjudged" % sorted({"%s -> %s" % (r.key(), r.result) for r in bad})[:3])
     colon = [r for r in rows if r.b1 == ord(":") and r.n2 not in ("END",) and r.b2 is not None and chr(r.b2).isalpha()]
     badc = [r for r in colon if r.in_header and not r.in_common and r.result != "Ok(HeaderMnemonicSeparator)"]
     badc += [r for r in colon if r.in_header and r.in_common and not r.result.startswith("Err(")]
@@ -434,6 +628,67 @@ def generated_inputs():
     return gen
 
 
+def element_engine():
+    """the lexer with every tokenizer function analysed in place (readers included), on concrete input bytes"""
+    if "eng8" in _C:
+        return _C["eng8"]
+    from . import convert as CV
+    P = D.prog()
+    u = P.unit("scpi")
+
+    def m_parse_int(eng, st, fr, t, name, rname, args):
+        b_ = M._bytes_of(eng, st, args[0])
+        if b_ is None:
+            return NotImplemented
+        txt = bytes(b_)
+        g = eng.concrete_gargs(st, t["callee"])
+        rng = fdai._INT_RANGE.get(g[0] if g else "usize") or (0, 2 ** 64 - 1)
+        body_txt = txt[1:] if txt[:1] in (b"+", b"-") and rng[0] < 0 else txt
+        if body_txt.isdigit() and rng[0] <= int(txt) <= rng[1]:
+            return fdai.mk_ok(K(int(txt)))
+        return fdai.mk_err(fdai.SymV("lexical-error", "lexical-error"))
+
+    def m_parse_partial_radix(eng, st, fr, t, name, rname, args):
+        """lexical_core::parse_partial_with_options::<u64, FORMAT> as audited for the pinned lexical-core (probed on the
+        real crate when defects F15/F16 were triaged): an optional leading `+` is taken; digits are accumulated with
+        wrapping arithmetic and overflow is recognised from the digit count (more than the maximal count for the
+        radix) or, at exactly the maximal count, from the wrapped value being smaller than radix^(count-1) - which
+        misses 22-digit octal literals whose leading digit is 3, 5 or 7. A reader that relies on this parser for
+        the value is reported through the element tables (`#H+2A`, `#Q3000000000000000000000`, ...)."""
+        b_ = M._bytes_of(eng, st, args[0])
+        g = eng.concrete_gargs(st, t["callee"])
+        if b_ is None or len(g) < 2 or not str(g[1]).isdigit():
+            return NotImplemented
+        radix = (int(g[1]) >> 104) & 0xFF
+        digits = "0123456789abcdefghijklmnopqrstuvwxyz"[:radix]
+        txt = bytes(b_)
+        i0 = 1 if txt[:1] == b"+" else 0
+        i = i0
+        while i < len(txt) and chr(txt[i]).lower() in digits:
+            i += 1
+        if i == i0:
+            return fdai.mk_ok(AggV("tuple", {0: K(0), 1: K(0)}))
+        sig = txt[i0:i].lstrip(b"0") or b"0"
+        v = int(sig, radix)
+        maxd = {16: 16, 8: 22, 2: 64}.get(radix)
+        wrapped = v % (2 ** 64)
+        over = maxd is not None and (len(sig) > maxd or (len(sig) == maxd and wrapped < radix ** (maxd - 1)))
+        if maxd is None:
+            over = v >= 2 ** 64
+        adt, tab = CV.lexical_error_table(eng)
+        if over and tab:
+            d = [k for k, n_ in tab.items() if n_ == "Overflow"]
+            return fdai.mk_err(EnumV(adt, "Overflow", d[0] if d else 0, {0: K(i)}))
+        return fdai.mk_ok(AggV("tuple", {0: K(wrapped), 1: K(i)}))
+
+    models8 = dict(M.FOLD_MODELS)
+    models8["lexical_core::parse"] = m_parse_int
+    models8["lexical_core::parse_partial_with_options"] = m_parse_partial_radix
+    eng8 = fdai.Engine(P, u, inline=lambda n, r: r.startswith("scpi::parser::tokenizer::") or ("tokenizer::Tokenizer" in r and r.startswith("<")), models=models8, loop_limit=120, max_paths=32)
+    _C["eng8"] = eng8
+    return eng8
+
+
 def element_table(kinds, thorough=False):
     """Tokenizer::next interpreted (all tokenizer functions in place, lexical-core's integer parsers by contract) on
     complete representative inputs; returns {kind: [mismatch descriptions]}, number of inputs evaluated, span"""
@@ -443,55 +698,7 @@ def element_table(kinds, thorough=False):
         P = D.prog()
         u = P.unit("scpi")
 
-        def m_parse_int(eng, st, fr, t, name, rname, args):
-            b_ = M._bytes_of(eng, st, args[0])
-            if b_ is None:
-                return NotImplemented
-            txt = bytes(b_)
-            g = eng.concrete_gargs(st, t["callee"])
-            rng = fdai._INT_RANGE.get(g[0] if g else "usize") or (0, 2 ** 64 - 1)
-            body_txt = txt[1:] if txt[:1] in (b"+", b"-") and rng[0] < 0 else txt
-            if body_txt.isdigit() and rng[0] <= int(txt) <= rng[1]:
-                return fdai.mk_ok(K(int(txt)))
-            return fdai.mk_err(fdai.SymV("lexical-error", "lexical-error"))
-
-        def m_parse_partial_radix(eng, st, fr, t, name, rname, args):
-            """lexical_core::parse_partial_with_options::<u64, FORMAT> as audited for the pinned lexical-core (probed on the
-            real crate when defects F15/F16 were triaged): an optional leading `+` is taken; digits are accumulated with
-            wrapping arithmetic and overflow is recognised from the digit count (more than the maximal count for the
-            radix) or, at exactly the maximal count, from the wrapped value being smaller than radix^(count-1) - which
-            misses 22-digit octal literals whose leading digit is 3, 5 or 7. A reader that relies on this parser for
-            the value is reported through the element tables (`#H+2A`, `#Q3000000000000000000000`, ...)."""
-            b_ = M._bytes_of(eng, st, args[0])
-            g = eng.concrete_gargs(st, t["callee"])
-            if b_ is None or len(g) < 2 or not str(g[1]).isdigit():
-                return NotImplemented
-            radix = (int(g[1]) >> 104) & 0xFF
-            digits = "0123456789abcdefghijklmnopqrstuvwxyz"[:radix]
-            txt = bytes(b_)
-            i0 = 1 if txt[:1] == b"+" else 0
-            i = i0
-            while i < len(txt) and chr(txt[i]).lower() in digits:
-                i += 1
-            if i == i0:
-                return fdai.mk_ok(AggV("tuple", {0: K(0), 1: K(0)}))
-            sig = txt[i0:i].lstrip(b"0") or b"0"
-            v = int(sig, radix)
-            maxd = {16: 16, 8: 22, 2: 64}.get(radix)
-            wrapped = v % (2 ** 64)
-            over = maxd is not None and (len(sig) > maxd or (len(sig) == maxd and wrapped < radix ** (maxd - 1)))
-            if maxd is None:
-                over = v >= 2 ** 64
-            adt, tab = CV.lexical_error_table(eng)
-            if over and tab:
-                d = [k for k, n_ in tab.items() if n_ == "Overflow"]
-                return fdai.mk_err(EnumV(adt, "Overflow", d[0] if d else 0, {0: K(i)}))
-            return fdai.mk_ok(AggV("tuple", {0: K(wrapped), 1: K(i)}))
-
-        models8 = dict(M.FOLD_MODELS)
-        models8["lexical_core::parse"] = m_parse_int
-        models8["lexical_core::parse_partial_with_options"] = m_parse_partial_radix
-        eng8 = fdai.Engine(P, u, inline=lambda n, r: r.startswith("scpi::parser::tokenizer::") or ("tokenizer::Tokenizer" in r and r.startswith("<")), models=models8, loop_limit=120, max_paths=32)
+        eng8 = element_engine()
         nb = tokenizer_next_body(u)
         tk_fields = tokenizer_fields(u)
         results = {}
@@ -504,8 +711,8 @@ def element_table(kinds, thorough=False):
                 seen_in.add(data)
                 st = fdai.State()
                 st.extra["bytes"] = list(data)
-                vals = {"chars": M.mk_bytes_iter(0), "in_header": K(in_header), "in_common": K(False), "after_data": K(kind == "separator")}
-                cell = Cell(AggV(TOKENIZER, {i: vals.get(nm, TOP) for i, nm in enumerate(tk_fields)}), "tokenizer")
+                state0, ci0 = state_for((in_header, False, kind == "separator"))
+                cell = Cell(mk_tokenizer(state0, ci0), "tokenizer")
                 st.extra["tk"] = cell
                 k2 = kind if kind != "data" else ("string" if data[:1] in (b'"', b"'") else "expression" if data[:1] == b"(" else "decimal" if data[:1] != b"#" else "block" if data[1:2].isdigit() else "non-decimal")
                 exp = ref_element(data, in_header) if kind != "separator" else ref_separator(data)
